@@ -395,7 +395,7 @@ func (rn *runner) floatCase(bits uint64) {
 
 func (rn *runner) streamText(g *gen) {
 	for i := 0; i < rn.n; i++ {
-		c := g.ctx(false, true)
+		c := g.ctx(false, false)
 		var d *apd.Decimal
 		switch g.r.Intn(10) {
 		case 0: // around the scientific/plain switch-over: adjusted exponent -6/-7
@@ -406,8 +406,8 @@ func (rn *runner) streamText(g *gen) {
 			d.Negative = g.r.Intn(2) == 0
 		case 2:
 			d = special(apd.Form(1+g.r.Intn(3)), g.r.Intn(2) == 0)
-		case 3: // full exponent range
-			d = g.finite(c, true)
+		case 3: // full exponent range (rarely: plain notation of 1E+100000 is 100001 characters)
+			d = g.finite(c, g.r.Intn(40) == 0)
 		case 4: // exponent 0 / positive / small negative
 			d = g.finite(c, false)
 			d.Exponent = int32(g.pick(0, 1, 2, 5, -1, -2, -3))
